@@ -104,7 +104,30 @@ def strategy(tier: str):
     )
 
 
+INTERVENING = (
+    "11;1;1;0;3;1\n", "11;1;1;0;3;0\n", "11;1;1;1;3;1\n", "11;1;1;0;23;1\n", "11;2;1;0;3;1\n", "1;1;1;0;3;1\n",  # the node (or another) reports a value
+    "11;1;2;0;3;\n", "11;1;2;1;3;\n", "11;2;2;0;3;\n",  # the node asks for a value
+    "11;1;0;0;3;relay\n", "11;255;0;0;17;2.0\n", "11;255;0;0;18;2.2.0\n",  # (re-)presentations
+    "11;255;3;0;0;55\n", "11;255;3;0;11;sketch\n", "11;255;3;0;18;\n", "11;255;3;0;33;\n", "11;255;3;0;6;0\n", "11;255;3;0;1;\n",
+    "1;255;3;0;22;7\n", "1;255;3;0;32;500\n", "0;255;3;0;9;log\n", "0;255;3;0;2;2.2.0\n", "0;255;3;0;2;2.0.0\n", "junk\n", "11;1;1;0;3;1\n11;1;1;0;3;1\n",
+)
+
+
 def enumerate_cases(tier: str):
+    # one parked command, one intervening event of every kind, then the wake: the command is owed whatever happened in between
+    registry = {
+        "11": {"node_id": 11, "node_type": 17, "protocol_version": "2.0", "sketch_name": "", "sketch_version": "", "battery_level": 0, "heartbeat": 0, "sleeping": True,
+               "children": {"1": {"child_id": 1, "child_type": 3, "description": "", "values": {"3": "1"}}, "2": {"child_id": 2, "child_type": 3, "description": "", "values": {}}}},
+        "1": {"node_id": 1, "node_type": 17, "protocol_version": "2.0", "sketch_name": "", "sketch_version": "", "battery_level": 0, "heartbeat": 0, "sleeping": True, "children": {}},
+    }
+    for version in ("2.0", "2.2"):
+        wake = "11;255;3;0;32;500\n" if version == "2.2" else "11;255;3;0;22;7\n"
+        for value in ("1", "0"):
+            for mode in ("fresh", "persistent"):
+                for line in INTERVENING:
+                    ops = [["send", [11, 1, 1, 0, 3, value], None], ["send", [1, 2, 1, 0, 3, value], None]]
+                    ops += [["rx", l + "\n"] for l in line.rstrip("\n").split("\n")] + [["rx", wake], ["session"], ["rx", wake]]
+                    yield {"version": version, "registry": registry, "ops": ops, "listen_mode": mode}
     # many parked commands for one node: all of them are owed at its next wake, however many there are
     for version in ("2.0", "2.2"):
         wake = "1;255;3;0;32;500\n" if version == "2.2" else "1;255;3;0;22;7\n"
